@@ -123,7 +123,7 @@ def _run_cli(prop, tier, seed, v, wd):
             # zero values and stored NaNs (instantiated as -0 / +0 and as NaNs with different payloads by the harness)
             mcs.append(("CLayoutsQuick", "MethodSum", "XffZero", 0, "Vals0", 2, False))
             exps.append(("CLayoutsQuick", "MethodSum", "XffZero", 0, "Vals0", 2, False, 3))
-        if prop in ("C18", "C16"):
+        if prop == "C18":
             # physical slot order matters for view-raw: rings of 3 slots with gaps (first and last slot written, middle empty)
             mcs.append(("CLayoutsTwo", "MethodSum", "XffZero", 1, "Vals1", 2, False))
             exps.append(("CLayoutsTwo", "MethodSum", "XffZero", 1, "Vals1", 2, False, 3))
